@@ -30,8 +30,8 @@ func main() {
 				}
 				return false
 			}
-			nv := x.Run.Count(400, 30000)
-			nm := x.Run.Count(1000, 120000)
+			nv := x.Run.Count(400, 20000)
+			nm := x.Run.Count(1000, 60000)
 			x.RandomStreams(8, nv, nm, nil, []string{
 				"segid", "timestamp", "exptime", "consingress", "consegress", "mac", "mac-next", "key",
 				"expired", "expired-next", "barely-valid", "mac", "expired", "currhf", "currinf", "srcia",
